@@ -162,6 +162,10 @@ def run_case(case: dict) -> dict:
         par = rng.random() < 0.3
         table = pd.DataFrame({kout: vals})
         if rng.random() < 0.4:
+            # an initial-value column next to the parameter column (the steady state of these networks does not depend on it)
+            table[net.variables[0]] = [round(rng.uniform(0.0, 3.0), 3) for _ in vals]
+            counters["scan:initial_value_column_next_to_parameter_column"] = 1
+        if rng.random() < 0.4:
             table.index = [0, 1, 0, 1]  # row labels need not be unique; every row is still its own steady-state problem
             counters["scan:repeated_row_labels"] = 1
         res = scan.steady_state(model, to_scan=table, parallel=par)
@@ -169,8 +173,9 @@ def run_case(case: dict) -> dict:
         flx = res.fluxes
         counters["scan:rows"] = len(vals)
         nontrivial = True
-        if list(var.index) != vals:
-            viols.append(core.viol("scan result index differs from input rows", None, got=list(var.index), expected=vals))
+        want_idx = vals if table.shape[1] == 1 else [tuple(r) for r in table.itertuples(index=False)]
+        if [tuple(i) if isinstance(i, tuple) else i for i in var.index] != want_idx:
+            viols.append(core.viol("scan result index differs from input rows", None, got=[str(i) for i in var.index], expected=[str(i) for i in want_idx]))
         for i, kv in enumerate(vals):
             row = var.iloc[i][net.variables].to_dict()
             A_row, _ = net.Ab(net.params | {kout: kv})
